@@ -313,3 +313,77 @@ Section Ordered.
     Proof. apply Permutation_length. apply isort_perm. Qed.
   End Rows.
 End Ordered.
+
+(* ------------------------------------------------------------------------------------------ *)
+(* following tokens: two generic induction schemes (strong induction on the remaining length) *)
+
+Lemma pages_items_cons {A} (items : list A) t ps :
+  pages_items ((items, t) :: ps) = items ++ pages_items ps.
+Proof. reflexivity. Qed.
+
+Lemma firstn_skipn_add {A} (l : list A) k s : firstn s (skipn k l) ++ skipn (k + s) l = skipn k l.
+Proof.
+  rewrite Nat.add_comm, <- skipn_skipn. apply firstn_skipn.
+Qed.
+
+Section FollowGeneric.
+  Context {A : Type} (l : list A) (size : nat) (step : bytes -> outcome A) (tk : nat -> bytes).
+  Hypothesis Hsize : (0 < size)%nat.
+  Hypothesis Htk : forall k, (0 < k)%nat -> tk k <> [].
+  Hypothesis Hstep : forall k, (k < length l \/ k = 0)%nat ->
+    step (tk k) = if (k + size <? length l)%nat
+                  then Page (firstn size (skipn k l)) (tk (k + size))
+                  else Page (skipn k l) [].
+
+  Lemma follow_generic : forall fuel k, (k < length l \/ k = 0)%nat -> (length l - k < fuel)%nat ->
+    exists ps, follow fuel step (tk k) = (ps, EndMarker)
+               /\ pages_items ps = skipn k l
+               /\ Forall (fun p => (length (fst p) <= size)%nat) ps.
+  Proof.
+    induction fuel as [|fuel IH]; intros k Hk Hf; [lia|].
+    cbn [follow]. rewrite (Hstep k Hk). destruct (k + size <? length l)%nat eqn:E.
+    - apply Nat.ltb_lt in E.
+      destruct (IH (k + size)%nat) as (ps & Hfo & Hit & Hall); [lia|lia|].
+      destruct (tk (k + size)) as [|c r] eqn:Et; [exfalso; apply (Htk (k + size)%nat); [lia|exact Et]|].
+      rewrite Hfo. eexists. split; [reflexivity|]. split.
+      + rewrite pages_items_cons, Hit. apply firstn_skipn_add.
+      + constructor; [|exact Hall]. simpl. rewrite firstn_length. lia.
+    - apply Nat.ltb_ge in E. eexists. split; [reflexivity|]. split.
+      + unfold pages_items. simpl. rewrite app_nil_r. reflexivity.
+      + constructor; [|constructor]. simpl. rewrite skipn_length. lia.
+  Qed.
+End FollowGeneric.
+
+Section FollowChangesGeneric.
+  Context {A : Type} (l : list A) (size : nat) (step : bytes -> outcome A) (tk : nat -> bytes).
+  Hypothesis Hsize : (0 < size)%nat.
+  Hypothesis Hstep : forall k, (k <= length l)%nat ->
+    step (tk k) = if (k <? length l)%nat
+                  then Page (firstn size (skipn k l)) (tk (Nat.min (k + size) (length l)))
+                  else Page [] (tk k).
+
+  Lemma follow_changes_generic : forall fuel k, (k <= length l)%nat -> (length l - k < fuel)%nat ->
+    exists ps, follow_changes fuel step (tk k) = (ps, EndMarker)
+               /\ pages_items ps = skipn k l
+               /\ Forall (fun p => (length (fst p) <= size)%nat) ps.
+  Proof.
+    induction fuel as [|fuel IH]; intros k Hk Hf; [lia|].
+    cbn [follow_changes]. rewrite (Hstep k Hk). destruct (k <? length l)%nat eqn:E.
+    - apply Nat.ltb_lt in E.
+      destruct (IH (Nat.min (k + size) (length l))) as (ps & Hfo & Hit & Hall); [lia|lia|].
+      destruct (firstn size (skipn k l)) as [|x items] eqn:Ef.
+      + exfalso. apply (f_equal (@length A)) in Ef. rewrite firstn_length, skipn_length in Ef.
+        simpl in Ef. lia.
+      + rewrite Hfo. eexists. split; [reflexivity|]. split.
+        * rewrite pages_items_cons, Hit, <- Ef.
+          destruct (Nat.le_gt_cases (k + size) (length l)) as [Hle|Hgt].
+          -- rewrite Nat.min_l by exact Hle. apply firstn_skipn_add.
+          -- rewrite Nat.min_r by lia. rewrite skipn_all, app_nil_r.
+             apply firstn_all2. rewrite skipn_length. lia.
+        * constructor; [|exact Hall]. cbn [fst]. rewrite <- Ef, firstn_length. lia.
+    - apply Nat.ltb_ge in E. assert (k = length l) by lia. subst k.
+      eexists. split; [reflexivity|]. split.
+      + unfold pages_items. simpl. rewrite skipn_all. reflexivity.
+      + constructor; [|constructor]. simpl. lia.
+  Qed.
+End FollowChangesGeneric.
